@@ -136,6 +136,17 @@ class FTPProcessorSession(BaseProcessorSession):
             self._item_session.skip()
             return
 
+        if not self._is_sent_path_same(request):
+            # The filters saw the path of the URL. The server gets the
+            # decoded path, which names something else.
+            _logger.warning(
+                _('Skipping ‘{url}’: an escaped slash or dot segment '
+                  'changes the path when it is decoded.'),
+                url=request.url
+            )
+            self._item_session.skip()
+            return
+
         self._add_request_password(request)
 
         dir_name, filename = self._item_session.url_record.url_info.split_path()
@@ -167,6 +178,23 @@ class FTPProcessorSession(BaseProcessorSession):
         if wait_time:
             _logger.debug('Sleeping {0}.', wait_time)
             yield from asyncio.sleep(wait_time)
+
+    @classmethod
+    def _is_sent_path_same(cls, request: Request) -> bool:
+        '''Return whether the path sent to the server has the segments of
+        the URL's path.
+
+        The path is sent percent-decoded (:attr:`Request.file_path`). A
+        segment such as ``..%2F..%2Fetc`` or ``%2E%2E`` then leads out of
+        the directory that the URL filters accepted.
+        '''
+        for segment in request.url_info.path.split('/'):
+            decoded = urllib.parse.unquote(segment)
+
+            if '/' in decoded or decoded in ('.', '..'):
+                return False
+
+        return True
 
     def _add_request_password(self, request: Request):
         if self._fetch_rule.ftp_login:
